@@ -3,6 +3,7 @@ C07 line-protocol driver.  Python values in C06's prefix notation
   N | T | F | I<int> | D<num>/<den>:<bits> | S<hex> | L<n> v1..vn
 Requests (one answer line each):
   times <t0> <beatDur> <start> <W<delta> | S>...     logical seconds of every send of a routine
+  plan <L..>                       `send_clumped_bundles`: number of elements of every clump (C06 `sendClumpedPlan`)
   rtb <secs> <offset> <L..>        RT `send_bundle` datagram       -> ok <hex> | err <Name>
   rtm <secs> <offset> <L..>        RT `send_msg` datagram
   rcv <offset> <now> <hex>         times handed to receive functions for an incoming packet
@@ -125,6 +126,13 @@ def handle (st : St) (line : String) : St × String :=
     | some t0, some dur, some start =>
       (st, " ".intercalate ("T" :: (sendTimes t0 dur start (parseSteps steps)).map fmtRat))
     | _, _, _ => (st, "bad-op")
+  | "plan" :: toks =>
+    match parseList toks with
+    | some l =>
+      match sendClumpedPlan l with
+      | .ok cs => (st, " ".intercalate ("P" :: cs.map fun c => toString c.length))
+      | .error e => (st, "err " ++ errName e)
+    | none => (st, "bad-op")
   | "rtb" :: secs :: off :: toks =>
     match parseRat secs, off.toInt?, parseList toks with
     | some secs, some off, some l => (st, fmtBytes (rtBundle ⟨true, secs⟩ off l))
